@@ -25,14 +25,14 @@ def check(run):
                 "+ failing launch patches; each replayed on the real lifecycle, node-termination controllers and eviction queue; "
                 "non-trivial = the real trace contains a finalizer-removing patch of the Node or the NodeClaim by Karpenter")
     thorough = run.tier == "thorough"
-    models = ["Termination_MC.cfg"] + (["Termination_MCfine.cfg", "Termination_MCbig.cfg"] if thorough else [])
+    models = ["Termination_MC.cfg"] + (["Termination_MCfine.cfg", "Termination_MCbig.cfg", "Termination_Live.cfg"] if thorough else [])
     tc.parallel_tlc(run, "Termination", models, WEAK, coverage=thorough, workers=6 if thorough else 4)
     behs = tc.generate(run, NSIM[run.tier][0], NSIM[run.tier][1], with_term_sys=True, with_drain_sys=thorough)
     files = tc.record(run, behs)
     info, total = tc.scan(files, len(behs))
     for b, k in zip(behs, info):
         run.note_case(json.dumps([b["cfg"], b["steps"]], sort_keys=True), k["fin:Node"] + k["fin:NodeClaim"] > 0)
-    run.validate("Termination_Trace", "Termination_Trace.cfg", files, par=min(vlib.NCPU, 8))
+    tc.validate(run, files)
     run.extra_cov["guarded_event_counts"] = dict(total)
     run.samples = [{"tag": b["tag"], "cfg": b["cfg"], "steps": b["steps"]} for b in (behs[0], behs[len(behs) // 2], behs[-1])]
     run.assumptions += ["controller-runtime fake client + harness choke point stand in for the API server (finalizer-gated deletion, "
